@@ -366,7 +366,7 @@ PROPS['C06'] = dict(
            K('poulpy-cpu-ref', 'verif_kani', ['c06_vec_znx_fill_uniform_ref__n2_size2'], cls='complete', timeout=900, functions=['znx_fill_uniform_ref', 'vec_znx_fill_uniform_ref'])],
     trusted_base=VERUS_TRUST + ['Source reduced to (seed, words drawn) in the Verus unit'],
     assumptions=['stream abstraction: every u64 drawn from ChaCha8 is an independent symbolic value'],
-    remainder='empirical sigma, uniformity of the generator, determinism in (plaintext, secret, seeds) and seed separation of the key-material routines other than the GGLWE-level encryptions (core_encrypt) and the circuit-bootstrapping bundle's stream order (cbt_key_encrypt)',
+    remainder='empirical sigma, uniformity of the generator, determinism in (plaintext, secret, seeds) and seed separation of the key-material routines other than the GGLWE-level encryptions (core_encrypt) and the stream order of the circuit-bootstrapping bundle (cbt_key_encrypt)',
 )
 
 AVX_STUBS = 'lane-wise models (Intel SDM) of _mm256_srlv_epi64, _mm256_sllv_epi64, _mm256_add_epi64, _mm256_sub_epi64, _mm256_sll_epi64, _mm256_srl_epi64, _mm256_i64gather_epi64 (Kani cannot interpret these intrinsics)'
